@@ -439,13 +439,22 @@ def common_rewrites(ctx, sf, a, b, item_kind, opts):
             close_rng = pair[k]
             call_open = close_rng + 3
             call_close = pair[call_open]
-            ct = toks[call_open + 1:call_open + 4]
+            ct = toks[call_open + 1:call_open + 6]
+            boff = 4
+            vty = None
+            if ct[0].text == "|" and ct[2].text == ":" and ct[3].kind == "id" and ct[4].text == "|":
+                boff = 6     # typed closure parameter `|v: T|`: the range bounds are cast to T so that the loop variable has the same type
+                vty = ct[3].text
+                ct = [ct[0], ct[1], ct[4]]
             if ct[0].text == "|" and ct[2].text == "|" and (ct[1].kind == "id" or ct[1].text == "_") \
                     and any(x.text in ("..", "..=") for x in toks[k + 1:close_rng]):
                 var = ct[1].text
-                body_lo = toks[call_open + 4].start
+                body_lo = toks[call_open + boff].start
                 body_hi = toks[call_close].start
                 rng = sf.text[toks[k + 1].start:toks[close_rng].start]
+                if vty:
+                    m_ = re.match(r"^\s*(.+?)\s*(\.\.=?)\s*(.+?)\s*$", rng)
+                    rng = f"(({m_.group(1)}) as {vty}){m_.group(2)}(({m_.group(3)}) as {vty})"
                 semi = toks[call_close + 1]
                 if semi.text == ";":
                     body_text_end = sf.text[body_lo:body_hi].rstrip()
@@ -455,7 +464,7 @@ def common_rewrites(ctx, sf, a, b, item_kind, opts):
                     edits.append(Edit(body_lo, body_lo, "{ ", prio=0.5))
                     edits.append(Edit(body_hi, semi.end, (";" if needs_semi else "") + " }"))
                     ctx.fire("N4", sf, t.start)
-                    k = call_open + 4
+                    k = call_open + boff
                     continue
         # N4r: (A..=B).rev().for_each(|v| BODY);  ->  exact counting-down while loop
         if t.text == "(" and toks[pair[k] + 1].text == "." and toks[pair[k] + 2].text == "rev" \
@@ -708,9 +717,10 @@ def find_loops(sf, body_open, body_close):
                 j = pair[j] + 1 if toks[j].text in ("(", "[") else j + 1
             out.append((k, toks[j].start, toks[j].end, toks[pair[j]].start, t.text))
         elif t.kind == "id" and t.text == "for_each" and toks[k - 1].text == "." and toks[k + 1].text == "(" \
-                and toks[k + 2].text == "|" and toks[k + 4].text == "|" and toks[k - 2].text == ")":
+                and toks[k + 2].text == "|" and (toks[k + 4].text == "|" or (toks[k + 4].text == ":" and toks[k + 6].text == "|")) and toks[k - 2].text == ")":
             call_open = k + 1
-            out.append((k, toks[call_open + 4].start, toks[call_open + 4].start, toks[pair[call_open]].start, "for_each"))
+            boff = 4 if toks[k + 4].text == "|" else 6
+            out.append((k, toks[call_open + boff].start, toks[call_open + boff].start, toks[pair[call_open]].start, "for_each"))
         k += 1
     return out
 
@@ -863,7 +873,29 @@ def build_fn(ctx, unit, fs):
     elems = [e.strip() for e in rest.split("::")]
     # re-join generic path elements that were split on '::' inside impl headers (not used)
     sf = ctx.sf(file_rel)
-    it = sf.find(elems)
+    lazy = None
+    if len(elems) == 1 and elems[0].startswith("lazy "):
+        # LAZY: `static ref NAME: TYPE = { BLOCK };` inside a lazy_static! { .. } item becomes `fn NAME__init() -> TYPE BLOCK`
+        # (the initialiser block is real code; what is dropped is the lazy_static machinery around it)
+        lname = elems[0][5:].strip()
+        toks_ = sf.toks
+        it = None
+        for k_ in range(len(toks_) - 4):
+            if toks_[k_].text == "static" and toks_[k_ + 1].text == "ref" and toks_[k_ + 2].text == lname and toks_[k_ + 3].text == ":":
+                e_ = k_ + 4
+                while toks_[e_].text != "=":
+                    e_ = sf.pair[e_] + 1 if toks_[e_].text in ("(", "[") else e_ + 1
+                lty = sf.text[toks_[k_ + 4].start:toks_[e_ - 1].end]
+                if toks_[e_ + 1].text != "{":
+                    raise UnitSyntaxError(f"{fs.path}: lazy initialiser of {lname} is not a block")
+                bl_, bh_ = e_ + 1, sf.pair[e_ + 1]
+                it = rustlex.Item("fn", lname + "__init", toks_[bl_].start, toks_[bh_].end, toks_[bl_].start, bl_, bh_ + 1, bl_, bh_, "")
+                lazy = dict(item=it, pre="", pre_line=0, tail="", tail_line=0, params="", ret=lty)
+                break
+        if it is None:
+            raise LostAnchor(f"lazy static {lname} not found in {file_rel}")
+    else:
+        it = sf.find(elems)
     if it is None or it.kind != "fn":
         raise LostAnchor(f"function {fs.path} not found")
     toks, pair = sf.toks, sf.pair
@@ -871,9 +903,11 @@ def build_fn(ctx, unit, fs):
     parent_impl = elems[-2] if len(elems) > 1 else None
     # signature tokens
     q = it.tok_lo
-    while toks[q].text != "fn":
+    while not lazy and toks[q].text != "fn":
         q += 1
-    arm = None
+    arm = lazy
+    if lazy:
+        parent_impl = None
     if fs.opts.get("arm_state"):
         # ARM SLICING: one arm `PAT => { BLOCK }` of the inner `match ch` of one state arm of a big dispatcher becomes a
         # synthetic method with the dispatcher's signature. What this drops: the dispatch itself (which arm runs for which
